@@ -17,10 +17,11 @@ ENGINE = "worlds.ampworld"
 PROP = "C20"
 
 TIERS = {
-    "quick": {"files": 4, "hashseeds": 2, "histories": 40, "twice_percent": 20, "fresh_interpreters": 0},
-    "thorough": {"files": 12, "hashseeds": 6, "histories": 1200, "twice_percent": 15, "fresh_interpreters": 12},
+    "quick": {"files": 4, "hashseeds": 2, "extra_hashseeds": 4, "histories": 32, "twice_percent": 20, "fresh_interpreters": 0},
+    "thorough": {"files": 12, "hashseeds": 6, "extra_hashseeds": 10, "histories": 1200, "twice_percent": 15, "fresh_interpreters": 12},
 }
 HASHSEEDS = [0, 1, 7, 42, 1234, 99991]
+EXTRA_HASHSEEDS = [2, 3, 5, 11, 101, 2024, 31337, 65537, 424242, 4294967295]
 
 
 def known_keys(case, out):
@@ -69,7 +70,8 @@ def main(tier: str, seed: int, opts) -> int:
     need = {}
     for h in histories:
         for op in h["ops"]:
-            need.setdefault((ampworld.op_key(op), h["hashseed"]), op)
+            if op["op"] != "interrupt":
+                need.setdefault((ampworld.op_key(op), h["hashseed"]), op)
     # every distinct call is also evaluated under every hash seed (oracle 2)
     for (k, _), op in list(need.items()):
         for hs in hashseeds:
@@ -113,6 +115,8 @@ def main(tier: str, seed: int, opts) -> int:
                 outcome_kinds[o["kind"]] = outcome_kinds.get(o["kind"], 0) + 1
                 if o["kind"] == "raise":
                     raise_kinds[o["exc"]] = raise_kinds.get(o["exc"], 0) + 1
+                if op["op"] == "interrupt":
+                    continue  # nothing is promised about the killed call itself, only about the calls after it
                 d = ampworld.compare_obs(refs[(ampworld.op_key(op), h["hashseed"])], o)
                 if d is not None:
                     sig = {"check": "history_independence", "kind": ampworld.op_kind(op).rsplit(":", 1)[0]}
@@ -158,6 +162,39 @@ def main(tier: str, seed: int, opts) -> int:
                     rep.violations.append({"signature": body["violation"]["signature"], "replay": path})
                     print(f"VIOLATION property={PROP} replay={path}", flush=True)
                     log(f"[C20] hash seeds {hashseeds[0]} vs {hs}: {json.dumps(d)[:500]}")
+        # oracle 2, widened cheaply: every converting call in its canonical (returning) form under further hash seeds
+        extra = EXTRA_HASHSEEDS[: cfg["extra_hashseeds"]]
+        canon = {}
+        for (k, hs), op in need.items():
+            if op["op"] == "convert":
+                c = {kk: vv for kk, vv in op.items() if kk != "via"}
+                c["ret"] = True
+                canon.setdefault(ampworld.op_key(c), c)
+        if extra and canon:
+            base_jobs = [{"engine": ENGINE, "func": "run_ops", "hashseed": hashseeds[0], "limit_s": 2400, "args": {"pool": slim, "ops": [c]}}
+                         for _, c in sorted(canon.items()) if (ampworld.op_key(c), hashseeds[0]) not in refs]
+            base_keys = [k for k, c in sorted(canon.items()) if (k, hashseeds[0]) not in refs]
+            for k, r in zip(base_keys, pool.map(base_jobs)):
+                refs[(k, hashseeds[0])] = unwrap(r, "C20 canonical call")["obs"][0]
+            with ZygotePool(workers=default_workers(), hashseeds=extra, preload="worlds.ampworld") as pool2:
+                ejobs, ekeys = [], []
+                for k, c in sorted(canon.items()):
+                    for hs in extra:
+                        ejobs.append({"engine": ENGINE, "func": "run_ops", "hashseed": hs, "limit_s": 2400, "args": {"pool": slim, "ops": [c]}})
+                        ekeys.append((k, hs))
+                for (k, hs), r in zip(ekeys, pool2.map(ejobs, progress="C20 hash seeds")):
+                    o = unwrap(r, "C20 extra hash seed")["obs"][0]
+                    pairs_checked += 1
+                    d = ampworld.compare_obs(refs[(k, hashseeds[0])], o)
+                    if d is not None and "hashseed" not in seen:
+                        seen.add("hashseed")
+                        body = {"kind": "hashseed_pair", "hashseeds": [hashseeds[0], hs], "engine": ENGINE, "func": "run_ops",
+                                "case": {"pool": slim, "ops": [canon[k]]},
+                                "violation": {"signature": {"check": "hash_seed_independence"}, "detail": d}, "minimised": False}
+                        path = write_replay(PROP, f"{seed}-hashseed-{hs}", body)
+                        rep.violations.append({"signature": body["violation"]["signature"], "replay": path})
+                        print(f"VIOLATION property={PROP} replay={path}", flush=True)
+                        log(f"[C20] hash seeds {hashseeds[0]} vs {hs}: {json.dumps(d)[:500]}")
         # true fresh interpreters for a sample (thorough): fork-equals-fresh cross-check
         fresh_checked = 0
         if cfg["fresh_interpreters"]:
@@ -175,13 +212,16 @@ def main(tier: str, seed: int, opts) -> int:
         "histories": len(histories),
         "pristine_single_call_processes": len(ref_jobs),
         "hash_seeds": hashseeds,
+        "extra_hash_seeds_for_converting_calls": EXTRA_HASHSEEDS[: cfg["extra_hashseeds"]],
         "hash_seed_pairs_compared": pairs_checked,
         "histories_run_twice_for_exact_reproducibility": twice_checked,
         "fresh_interpreter_histories_compared": fresh_checked,
         "pool": [{"name": f["name"], "tags": f.get("tags"), "n_decay_lines": f.get("n_decay_lines")} for f in pool_files],
         "outcome_kinds": outcome_kinds,
         "consistent_exceptions_seen": raise_kinds,
-        "fault_kinds_fired": {"clock_jump_between_calls": clock_jumps, "interpreter_hash_seed_varied": len(hashseeds)},
+        "fault_kinds_fired": {"clock_jump_between_calls": clock_jumps, "interpreter_hash_seed_varied": len(hashseeds),
+                              "call_killed_part_way": outcome_kinds.get("interrupted", 0), "kill_point_beyond_end_of_call": outcome_kinds.get("interrupt_not_reached", 0),
+                              "file_rewritten_between_calls": sum(1 for h in histories for o in h["ops"] if (o.get("inner") or o).get("content"))},
         "simulated_time": {"clock_reads": clock_reads, "clock_jumps": clock_jumps},
         "regression_replays_run": n_reg,
         "log_digest": digest.hexdigest(),
